@@ -266,6 +266,10 @@ def gen_add(rng, tier):
     for v, am in sorted(cases):
         for force in (0, 1):
             ops.append(f"tagged.add {hx(v)} {am} {force}")
+            tl = tagged_len(v)
+            for w in sorted({max(4, tl), 9, rng.randint(max(4, tl), 9)}):
+                if w != tl:
+                    ops.append(f"tagged.add {hx(v)} {am} {force} {w}")
             el = ext_len(v)
             widths = {el, 8} | ({el + 1} if el < 8 else set())
             for w in sorted(widths):
